@@ -361,7 +361,7 @@ def g_mei_changes(tier, seed):
                     continue
                 for how in ("attr", "child"):
                     for at in (1, 2):
-                        for nst in (1, 2):
+                        for nst, pat in ((1, 0), (2, 0), (1, 1), (2, 1)):
                             chg = {}
                             if m1:
                                 chg["meter"] = list(m1)
@@ -373,7 +373,13 @@ def g_mei_changes(tier, seed):
                                 for mi in range(3):
                                     met = m1 if (m1 and mi >= at) else m0
                                     f = fillings(met, "mei")
-                                    ms.append([{"k": "m"}] if (mi == at and s == 0) or (mi == 2 and s == 1) else reindex(f[(mi + s) % 5], mi))
+                                    if pat == 0:
+                                        # a measure rest after the change only
+                                        mrest = (mi == at and s == 0) or (mi == 2 and s == 1)
+                                    else:
+                                        # measure rests on both sides of the change in the same staff
+                                        mrest = (mi in (at - 1, at) and s == 0) or (mi in (0, 2) and s == 1)
+                                    ms.append([{"k": "m"}] if mrest else reindex(f[(mi + s) % 5], mi))
                                 staves.append({"n": s + 1, "clef": ["G", 2], "layers": [{"n": 1, "m": ms}]})
                             yield {"f": "mei", "doc": {"meter": list(m0), "key": [1, "major"], "nm": 3, "staves": staves,
                                                        "chg": {str(at): chg}, "mei": {"chg": how}}}
@@ -932,7 +938,7 @@ def spaces(tier, seed):
            "1-2 staves; quick: keys {0,+-2,+-7}, modes {none,minor}, 3 meters, one hash block of 2 plus a fixed core; thorough: keys -7..7, 3 modes, 4 meters"),
         sp("mei-layout", g_mei_layout, "5 staff/layer configurations (also non-consecutive n) x 2 measures, every filling per layer-measure "
            "(7 fillings incl. measure rest and leading space; 4 for >4 slots, quick: one hash block of 4); cross-staff attribute"),
-        sp("mei-changes", g_mei_changes, "meter {4/4,3/4,6/8}^2 x key change x attr/child x at measure 2/3 x 1-2 staves with measure rests; "
+        sp("mei-changes", g_mei_changes, "meter {4/4,3/4,6/8}^2 x key change x attr/child x at measure 2/3 x 1-2 staves with measure rests after the change or on both sides of it; "
            "clef change before each of 4 notes"),
         sp("mei-ties", g_ties, "4 events from {C, E, chord CE, rest} over 2 measures, every non-empty subset of legal ties, tie element in "
            "the measure of its start/end; two layers/staves with ties", "mei"),
